@@ -182,6 +182,20 @@ class C16(TableProp):
             elif mode == 'stale':
                 rows = [r[:2] + [rng.choice([None, r[1] + rng.randrange(0, 4)])] + r[3:] for r in rows]
             yield {'shape': shape, 'rows': rows, 'live': [], 'mode': mode}
+        # dense composite family: every key of a small grid is written in the first transaction, random subsets later
+        # (several entities with "crossing" key components superseded in one transaction)
+        for i in range(60 if tier == 'quick' else 1500):
+            shape = {'key': 'composite', 'ncols': 1, 'strategy': 'validity', 'mods': False}
+            if rng.random() < 0.3:
+                shape.update({'tx_col': 'tx_id', 'end_col': 'end_tx_id'})
+            keys = [[a, b] for a in (1, 2) for b in (1, 2)]
+            rows = [[list(k), 1, None, 0, [0], []] for k in keys]
+            for tx in range(2, rng.choice([3, 4, 5]) + 1):
+                for k in keys:
+                    if rng.random() < 0.45:
+                        rows.append([list(k), tx, None, 1, [tx % 3], []])
+            rng.shuffle(rows)
+            yield {'shape': shape, 'rows': rows, 'live': [], 'mode': 'wiped', 'family': 'dense_composite'}
         if tier == 'thorough':
             for rows in tg.all_small_tables(2, 4, 0, 5):
                 yield {'shape': {'key': 'int', 'ncols': 1, 'strategy': 'validity', 'mods': False},
@@ -255,7 +269,7 @@ class C19(TableProp):
             'real utils.vacuum, then the set of rows in session.deleted compared with the model pass and judged '
             'by C19.Holds; non-trivial = some entity has >= 3 rows or two entities share the first key column')
     assumptions = ['sqlalchemy_utils.naturally_equivalent compares every non-primary-key column (modelled as VRow.data)']
-    needs_tags = ['aba', 'composite', 'some_deleted', 'first_is_update']
+    needs_tags = ['aba', 'composite', 'some_deleted', 'first_is_update', 'joined']
 
     def counts(self, tier):
         return 220 if tier == 'quick' else 5000
@@ -270,12 +284,41 @@ class C19(TableProp):
             if shape['strategy'] == 'validity' and rng.random() < 0.5:
                 rows = [r[:2] + [e] + r[3:] for r, e in zip(rows, tg.chain_ends(rows))]
             yield {'shape': shape, 'rows': rows, 'live': []}
+        # joined inheritance: vacuum(session, TextItem) meets polymorphic ArticleVersion rows whose subclass-table
+        # column is the only thing that changes (vals = [name, content])
+        for i in range(50 if tier == 'quick' else 1200):
+            shape = {'key': 'int', 'ncols': 2, 'strategy': 'subquery', 'mods': False, 'joined': True}
+            rows, keys = tg.random_rows(rng, shape, rng.choice([3, 4, 6, 8]), nvals=2, ops=(1, 1, 1, 0), p_null=0.1, p_repeat=0.9,
+                                        nkeys=rng.choice([1, 2]))
+            yield {'shape': shape, 'rows': rows, 'live': []}
         if tier == 'thorough':
             for rows in tg.all_small_tables(2, 3, 2, 4):
                 yield {'shape': {'key': 'int', 'ncols': 1, 'strategy': 'subquery', 'mods': False},
                        'rows': rows, 'live': []}
 
+    def run_joined(self, case):
+        from sqlalchemy_continuum import vacuum
+        from .. import envs
+        import sqlalchemy_continuum as sc
+        env = envs.Env(envs.shape_joined({'strategy': 'subquery'}, 2))
+        try:
+            tv = sc.version_class(env.classes['TextItem']).__table__
+            av = sc.version_class(env.classes['Article']).__table__
+            for key, tx, end, op, vals, _ in case['rows']:
+                env.conn.execute(tv.insert().values(id=key[0], name=tg.enc_val(vals[0]), kind='ar', transaction_id=tx, operation_type=op))
+                env.conn.execute(av.insert().values(id=key[0], content=tg.enc_val(vals[1]), transaction_id=tx, operation_type=op))
+            env.conn.commit()
+            s = env.s
+            vacuum(s, env.classes['TextItem'])
+            deleted = sorted([[v.id], v.transaction_id] for v in s.deleted)
+            s.rollback()
+            return {'deleted': deleted}
+        finally:
+            env.close()
+
     def run_case(self, case):
+        if case['shape'].get('joined'):
+            return self.run_joined(case)
         from sqlalchemy_continuum import vacuum
         te = tg.TableEnv(case['shape'])
         try:
@@ -302,6 +345,8 @@ class C19(TableProp):
         for r in sorted(rows, key=lambda r: r[1]):
             per.setdefault(tuple(r[0]), []).append(r)
         out.tags += [case['shape']['key'], case['shape']['strategy']]
+        if case['shape'].get('joined'):
+            out.tags.append('joined')
         firsts = {}
         for k in per:
             firsts.setdefault(k[0], set()).add(k)
@@ -350,14 +395,14 @@ class C20(Prop):
             "key, with >= 1 version")
     assumptions = ['string keys are interned to integers for the Lean side (the model never inspects key contents; '
                    'the implementation gets the real strings)']
-    needs_tags = ['quote', 'backslash', 'colon', 'percent', 'composite', 'custom_table_name', 'zero_versions']
+    needs_tags = ['quote', 'backslash', 'colon', 'percent', 'composite', 'custom_table_name', 'zero_versions', 'pk_constraint_order']
 
     def counts(self, tier):
         return 150 if tier == 'quick' else 4000
 
     def gen(self, rng, tier):
         for i in range(self.counts(tier)):
-            kind = rng.choice(['str', 'str', 'str', 'int', 'composite'])
+            kind = rng.choice(['str', 'str', 'str', 'int', 'composite', 'composite_rev'])
             tname = rng.choice([None, None, '%s_history', 'v_%s'])
             nkeys = rng.choice([1, 2, 3, 4])
             keys = []
@@ -371,6 +416,8 @@ class C20(Prop):
                     keys.append([rng.choice([0, 1, 2, 7, -3, 10 ** 9])])
                 else:
                     keys.append([rng.choice([0, 1, 2]), rng.choice([0, 1, 2])])
+                    if rng.random() < 0.5 and keys[-1][0] != keys[-1][1]:
+                        keys.append([keys[-1][1], keys[-1][0]])     # the same components swapped
             uniq = []
             for k in keys:
                 if k not in uniq:
@@ -385,8 +432,11 @@ class C20(Prop):
         opts = {'strategy': case['strategy']}
         if case.get('table_name'):
             opts['table_name'] = case['table_name']
-        if case['kind'] == 'composite':
+        if case['kind'] in ('composite', 'composite_rev'):
             spec = envs.shape_composite(opts, extra_cols=1)
+            if case['kind'] == 'composite_rev':
+                # PRIMARY KEY (b, a) on a class that declares a before b
+                spec['classes'][0]['pk_constraint'] = ['b', 'a']
             kc = ['a', 'b']
         else:
             spec = envs.shape_flat(opts, key='int' if case['kind'] == 'int' else 'str', extra_cols=1)
@@ -406,7 +456,7 @@ class C20(Prop):
             s = env.s
             res = []
             for k in case['keys']:
-                obj = s.get(cls, tuple(k) if len(k) > 1 else k[0])
+                obj = s.query(cls).filter_by(**dict(zip(kc, k))).one()
                 try:
                     n = count_versions(obj)
                     err = None
@@ -414,7 +464,7 @@ class C20(Prop):
                     n = None
                     err = type(e).__name__
                     s.rollback()
-                    obj = s.get(cls, tuple(k) if len(k) > 1 else k[0])
+                    obj = s.query(cls).filter_by(**dict(zip(kc, k))).one()
                 res.append({'key': k, 'count': n, 'error': err, 'versions_count': obj.versions.count()})
             transient = count_versions(cls())
             return {'results': res, 'transient': transient}
@@ -435,7 +485,9 @@ class C20(Prop):
 
     def judge(self, case, obs, answers):
         out = Outcome()
-        out.tags.append(case['kind'])
+        out.tags.append('composite' if case['kind'].startswith('composite') else case['kind'])
+        if case['kind'] == 'composite_rev':
+            out.tags.append('pk_constraint_order')
         if case.get('table_name'):
             out.tags.append('custom_table_name')
         allk = ''.join(str(x) for k in case['keys'] for x in k) if case['kind'] == 'str' else ''
@@ -444,7 +496,7 @@ class C20(Prop):
                 out.tags.append(tag)
         if 0 in case['counts']:
             out.tags.append('zero_versions')
-        special = case['kind'] == 'composite' or any(not ch.isalnum() for ch in allk)
+        special = case['kind'].startswith('composite') or any(not ch.isalnum() for ch in allk)
         out.nontrivial = special and any(c > 0 for c in case['counts'])
         out.key = repr((case['kind'], case['keys'], case['counts'], case.get('table_name')))
         if obs['transient'] != 0:
